@@ -196,3 +196,12 @@ def run(cx, chk):
     check_pure(cx, chk)
     check_plumb(cx, chk)
     check_wrap(cx, chk)
+    # `@string` rules yield exactly the consumed slice: slice_until(entry, body end) (C09.pair / C09.rt) over a cursor whose
+    # offset and remaining input always move together (C04.cursor)
+    from . import c09, c04
+    c09.check_pair(cx, chk)
+    c09.check_rt(cx, chk)
+    c04.check_cursor(cx, chk, cx.runtime, "runtime")
+    for old, new in (("C09.pair", "C02.string.pair"), ("C09.rt", "C02.string.rt"), ("C04.cursor", "C02.string.cursor")):
+        if old in chk.rules:
+            chk.rules[new] = chk.rules.pop(old)
